@@ -519,7 +519,11 @@ class Representation(ObjectWithFields):
             segment_num = int(segment_time // self.segment_duration)
 
         seg_delta = self.timescale_to_timedelta(timecode)
-        fta = timing.firstAvailableTime - timing.leeway
+        # the availability end time of a segment is its availability start
+        # time (MPD start time + MPD duration) plus its MPD duration and
+        # timeShiftBufferDepth, i.e. two durations after its MPD start time
+        fta = (timing.firstAvailableTime - timing.leeway -
+               2 * self.timescale_to_timedelta(self.segment_duration))
         if (
                 seg_delta < fta or
                 seg_delta > timing.elapsedTime
